@@ -1115,7 +1115,12 @@ fn calc_compu_method_limits(
                         //   x = (fy - c) / b
                         // this is rewritten to, to fix the edge case where f is f64::MAX, y > 1, but y/b < 1
                         //   x = (f * (y/b)) - c/b
-                        let func = |y: f64| (c.f * (y / c.b) - (c.c / c.b));
+                        // if y/b overflows (|b| < 1 and y at the end of the FLOAT64 range), scale by f/b instead
+                        let func = |y: f64| {
+                            let q = y / c.b;
+                            let scaled = if q.is_finite() { c.f * q } else { (c.f / c.b) * y };
+                            scaled - (c.c / c.b)
+                        };
                         lower_limit = func(lower_limit);
                         upper_limit = func(upper_limit);
                         if lower_limit > upper_limit {
